@@ -77,6 +77,9 @@ func c08Build(cfg map[string]interface{}, rng *rand.Rand) (p4 string, grid [][2]
 			}
 		}
 		s += " +lat_1=" + F(lat1) + " +lat_2=" + F(lat2) + " +lat_0=" + F(math.Round((lat1+lat2)/2*1e4)/1e4) + " +lon_0=" + F(lon0) + " +x_0=" + F(r(0, 2e6)) + " +y_0=" + F(r(0, 2e6))
+		if pn == "lcc" && rng.Intn(2) == 0 { // a scale factor on the conformal conic (the French Lambert zones have one)
+			s += " +k_0=" + F(r(0.9990, 1.0005))
+		}
 		lats = []float64{lat1 - math.Copysign(8, lat1), lat1, (lat1 + lat2) / 2, lat2 + math.Copysign(10, lat2)}
 	case "tmerc":
 		s += " +lat_0=" + F(r(-30, 30)) + " +lon_0=" + F(lon0) + " +k=" + F(r(0.9992, 1.0)) + " +x_0=" + F(r(0, 1e6)) + " +y_0=" + F(r(0, 1e6))
